@@ -9,6 +9,10 @@ From SK Require Import model.C03_Model model.C05_Model proof.C05_Proof proof.C05
 Import ListNotations.
 Local Open Scope nat_scope.
 
+Section WithThr.
+Context {TH : Thr}.
+
+
 Section BoundEquiv.
   Variables sg pi : N -> N.
   Hypothesis sg_inj : inj sg.
@@ -104,7 +108,10 @@ Proof.
 Qed.
 
 (** ** capstones: nothing is assumed about a writing that the run function has not evaluated *)
+End WithThr.
 From SK Require Import proof.C05_Prep proof.C05_PrepOrder proof.C05_Final proof.C05_Rewrite.
+Section WithThr2.
+Context {TH : Thr}.
 
 (** prepared rules, every strategy: [side_okb_c] on the base writing and on the other writing, as evaluated *)
 Theorem glued_set_checked strat (sg pi : N -> N) (Hs : inj sg) (Hp : inj pi) (host0 host : hostg) (p0 p : prepared) :
@@ -138,7 +145,10 @@ Proof.
 Qed.
 
 (** the default configuration, hydrogen-free templates *)
+End WithThr2.
 From SK Require Import proof.C05_Default.
+Section WithThr3.
+Context {TH : Thr}.
 Theorem pipeline_checked_default strat inv (host0 host : hostg) (tpl0 tpl : its) (pi sg : list (N * N)) :
   is_strat strat ->
   rewriting_okb host0 tpl0 (host, tpl, pi, sg) = true ->
@@ -159,3 +169,5 @@ Proof.
   split; [exact P1|]. split; [exact P2|].
   exact (P3 (side_okb_c_relabel (apply_map sg) (apply_map pi) Isg Ipi host0 (prep_default inv tpl0) S0) (side_okb_c_ok _ _ S)).
 Qed.
+
+End WithThr3.
